@@ -107,6 +107,15 @@ def make_x86(rng, name, shape=None, force_saved=None):
             f.emit(I("fill"), "body", rng.choice(X_FILL))
         f.emit(I("ret"), "epilogue", X_RET)
         return f
+    if shape == "frameless0":
+        # a leaf that touches nothing: frameless encoding with a stack size of one word (just the return address)
+        f.can_call = False
+        for _ in range(rng.range(1, 4)):
+            f.emit(I("fill"), "body", rng.choice(X_FILL))
+        f.emit(I("ret"), "epilogue", X_RET)
+        f.saved, f.alloc, f.frame = [], 0, False
+        f.opcode = 0x02010000
+        return f
     callee = [15, 14, 13, 12, RBX]
     if shape in ("frame", "dwarf-frame", "null-fp"):
         np_ = 0 if shape == "null-fp" else rng.range(0, 5)
@@ -245,6 +254,19 @@ def make_a64(rng, name, shape=None):
         f.emit(I("ldp_post", a, b, tot), "epilogue", a_ldp_post(a, b, tot))
     if not signing and rng.chance(1, 4):
         f.emit(I("b"), "epilogue", a_word(0x14000000 | rng.below(1 << 26)))           # tail call
+    elif signing and rng.chance(1, 2):
+        # arm64e authenticated tail call: autibsp; eor x16, lr, lr, lsl #1; tbz x16, #62, +8; brk #0xc471; then
+        # b target  |  mov x16, #imm; braa xN, x16     (all of it belongs to the epilogue: everything is restored)
+        f.emit(I("autibsp"), "epilogue", a_word(0xD50323FF))
+        f.emit(I("fill"), "epilogue", a_word(0xCA1E07D0))
+        f.emit(I("fill"), "epilogue", a_word(0xB6F00050))
+        f.emit(I("fill"), "epilogue", a_word(0xD4388E20))
+        if rng.chance(1, 2):
+            f.emit(I("b"), "epilogue", a_word(0x14000000 | rng.below(1 << 26)))
+        else:
+            f.emit(I("fill"), "epilogue", a_word(0xD2800010 | (rng.below(1 << 16) << 5)))          # mov x16, #imm
+            f.emit(I("braa"), "epilogue", a_word(0xD71F0800 | (rng.below(16) << 5) | 16))
+        f.authtail = True
     else:
         f.emit(I("retab" if signing else "ret"), "epilogue", A_RETAB if signing else A_RET)
     f.signing, f.alloc, f.npairs = signing, alloc, npairs
@@ -327,7 +349,7 @@ def run_to(st, func, upto, rng):
 def make_program(rng, arch, nfuncs=8):
     mk = make_x86 if arch == "x86" else make_a64
     funcs = [mk(rng, "f%d" % i) for i in range(nfuncs)]
-    need = ["frame", "frameless", "dwarf-frame", "null-leaf"] + (["indirect"] if arch == "x86" else ["frame-pairs"])
+    need = ["frame", "frameless", "dwarf-frame", "null-leaf"] + (["indirect", "frameless0"] if arch == "x86" else ["frame-pairs"])
     for sh in need:
         if sh not in [f.shape for f in funcs]:
             funcs.append(mk(rng, "f%d" % len(funcs), sh))
